@@ -80,6 +80,8 @@ fn replay<M: SeqModel>(m: &M, hist: &[usize], transitions: &AtomicU64) -> M::Wor
 }
 
 pub fn explore<M: SeqModel>(m: &M, cfg: &SeqConfig) -> SeqResult {
+    let _ = std::fs::create_dir_all(crate::world::scratch_root());
+    let _ = std::fs::write(crate::world::scratch_root().join("letters"), m.letters().iter().enumerate().map(|(i, l)| format!("{}={}", i, l)).collect::<Vec<_>>().join("\n"));
     let start = Instant::now();
     if let Ok(p) = std::env::var("NUNMC_DUMP_STATES") {
         let _ = DUMP.set(Mutex::new(std::fs::File::create(p).unwrap()));
@@ -152,6 +154,7 @@ pub fn explore<M: SeqModel>(m: &M, cfg: &SeqConfig) -> SeqResult {
                         if !m.enabled(&w, l) {
                             continue;
                         }
+                        crate::util::set_context(&format!("history (letter indices) {:?} then {}", hist, l));
                         let vs = m.step(&mut w, l);
                         transitions.fetch_add(1, Ordering::Relaxed);
                         histories.fetch_add(1, Ordering::Relaxed);
@@ -307,6 +310,7 @@ pub fn explore_all_histories<M: SeqModel>(m: &M, prefix: &[usize], sub: &[usize]
                         if !m.enabled(&w, l) {
                             break;
                         }
+                        crate::util::set_context(&format!("history (letter indices) {:?}", &hist[..=i]));
                         let vs = m.step(&mut w, l);
                         transitions.fetch_add(1, Ordering::Relaxed);
                         if !vs.is_empty() {
